@@ -2,6 +2,6 @@
    Only ExtrOcamlBasic is used: Z, positive and nat stay the extracted inductives. *)
 From Coq Require Extraction.
 From Coq Require Import ExtrOcamlBasic.
-From DV Require Import Prelude Cost Grid Dtw DtwSpec Bounds.
+From DV Require Import Prelude Cost Grid Dtw DtwSpec Bounds Traceback.
 Extraction Language OCaml.
-Extraction "model.ml" dtw_model wps_matrix ed_model lb_keogh_model.
+Extraction "model.ml" dtw_model wps_matrix ed_model lb_keogh_model best_path_model adj_penalty.
